@@ -482,6 +482,12 @@ def _traversal(ctx: Ctx, rep: Report, f: Func) -> None:  # noqa: C901
             for k, v in defs.items():
                 if v and src(v[0]) == f"len({bsrc})":
                     symenv[k] = N
+            for k, v in defs.items():
+                # a local computed from the length (`idx_last = len(items) - 1`)
+                if len(v) == 1 and k not in symenv and f"len({bsrc})" in src(v[0]):
+                    val = ctx.folder.fold(v[0], f.module, symenv)
+                    if isinstance(val, int) and not isinstance(val, bool):
+                        symenv[k] = val
             if idxvar is None or enum_start is None:
                 continue
             try:
